@@ -13,13 +13,18 @@ Events (c = connection id, unique per connect; r = resource id < NRES; tgt "S" =
   ["end", c, "malformed", variant]  header-level garbage: magic|version|msgtype|toolarge
   ["end", c, "badser"]              INVOKE naming an unknown serializer id
   ["timeout", c, k]                 k bytes of a request on c, then silence for longer than COMMTIMEOUT
+Worker hand-over (thread server; forced interleaving, no timing luck): `["end", c, "close", "gated"]` immediately followed by
+`["connect", c2, True, "gated"]`: Pool.notify_done is wrapped so that the worker that served c is parked right after it has
+handed itself back to the pool; the second event has c2 accepted and dispatched (Pool.process returned) while the worker is
+parked, then lets the worker go.
+Optional case key "faulty": {"<r>": "<exception class name>"}: close() of resource r raises that exception (after counting).
 """
 import contextlib, os, struct, sys, threading, time
 
 from tools.lib import rawdrv as rd
 
 POOL = 3            # THREADPOOL_SIZE of the thread server under test
-NRES = 4
+NRES = 6
 COMMTIMEOUT = 0.25
 WAIT = 3.0          # how long the harness waits for an expected reaction before recording its absence
 MALFORMED = ["magic", "version", "msgtype", "toolarge"]
@@ -29,9 +34,73 @@ class Res:
     """a tracked resource with a close() counter; kept alive by the harness (GC plays no role)"""
     def __init__(self, rid, log):
         self.rid, self.log = rid, log
+        self.fail = None          # exception class raised by close() (set per case)
 
     def close(self):
         self.log.append(("close", self.rid))
+        if self.fail is not None:
+            raise self.fail("resource %d could not be closed cleanly" % self.rid)
+
+
+class CustomCloseError(Exception):
+    pass
+
+
+def exc_class(name):
+    import Pyro5.errors
+    table = {"OSError": OSError, "ValueError": ValueError, "KeyError": KeyError, "RuntimeError": RuntimeError,
+             "AttributeError": AttributeError, "ZeroDivisionError": ZeroDivisionError, "Custom": CustomCloseError,
+             "PyroError": Pyro5.errors.PyroError, "SecurityError": Pyro5.errors.SecurityError,
+             "ConnectionClosedError": Pyro5.errors.ConnectionClosedError, "TimeoutError": Pyro5.errors.TimeoutError}
+    return table[name]
+
+
+FAULT_CLASSES = ["OSError", "ValueError", "KeyError", "RuntimeError", "AttributeError", "ZeroDivisionError", "Custom",
+                 "PyroError", "SecurityError", "ConnectionClosedError", "TimeoutError"]
+
+
+class Gate:
+    """forces the interleaving "a connection is accepted exactly while a worker returns to the pool" (thread server):
+    Pool.notify_done / Pool.process are wrapped once per process; when armed, the next worker that hands itself back is
+    parked right after notify_done returned, until release()."""
+    def __init__(self):
+        self.armed = False
+        self.reached = threading.Event()
+        self.go = threading.Event()
+        self.handed = threading.Event()
+        self.installed = False
+
+    def install(self):
+        if self.installed:
+            return
+        from Pyro5 import svr_threads
+        gate = self
+        orig_done, orig_process = svr_threads.Pool.notify_done, svr_threads.Pool.process
+
+        def notify_done(pool, worker):
+            orig_done(pool, worker)
+            if gate.armed:
+                gate.armed = False
+                gate.reached.set()
+                gate.go.wait(10)
+
+        def process(pool, job):
+            orig_process(pool, job)
+            gate.handed.set()
+        svr_threads.Pool.notify_done, svr_threads.Pool.process = notify_done, process
+        self.installed = True
+
+    def arm(self):
+        self.reached.clear()
+        self.go.clear()
+        self.armed = True
+
+    def release(self):
+        self.armed = False
+        self.go.set()
+
+
+GATE = Gate()
 
 
 class World:
@@ -102,6 +171,8 @@ class World:
         self.srv.daemon.clientDisconnect = lambda conn: world.log.append(("hook", world.by_id.get(id(conn))))
         self.srv.register(Sess, "S")
         self.srv.register(Plain(), "P")
+        if stype == "thread":
+            GATE.install()
         self.witness = None
         if stype == "multiplex":      # the thread server needs no barrier: a released worker slot implies the job is over
             self._open_witness()
@@ -135,11 +206,18 @@ class World:
                 return False
         return False
 
+    def dead_workers(self):
+        """worker threads that are listed busy but have terminated (thread server)"""
+        if self.stype != "thread":
+            return 0
+        return sum(1 for wk in list(self.srv.daemon.transportServer.pool.busy) if not wk.is_alive())
+
     def slots(self):
         a = self.srv.accounting()
         return a["busy"] if self.stype == "thread" else a["registered"]
 
     def stop(self):
+        GATE.release()
         with contextlib.suppress(Exception):
             if self.witness is not None:
                 self.witness.close()
@@ -175,6 +253,10 @@ def run_case(world, case):
     w = world
     # fresh bookkeeping; the daemon keeps running
     del w.log[:]
+    faulty = case.get("faulty") or {}
+    for rsc in w.res:
+        nm = faulty.get(str(rsc.rid))
+        rsc.fail = exc_class(nm) if nm else None
     w.conns.clear()
     w.by_id.clear()
     clients = {}                 # cid -> RawClient
@@ -272,7 +354,7 @@ def run_case(world, case):
         st = {"kind": kind, "t": round(time.time() - t0, 4), "hooks": sorted(e[1] for e in new if e[0] == "hook" and e[1] is not None),
               "closes": sorted(e[1] for e in new if e[0] == "close"),
               "execs": [list(e[1:]) for e in new if e[0] == "exec"],
-              "sockclosed": newly, "slots": w.slots() - base_now(), "conns": conns}
+              "sockclosed": newly, "slots": w.slots() - base_now(), "conns": conns, "dead_workers": w.dead_workers()}
         if extra:
             st.update(extra)
         steps.append(st)
@@ -294,11 +376,24 @@ def run_case(world, case):
         kind = ev[0]
         idle_guard()
         if kind == "connect":
-            _, c, ok = ev
+            c, ok = ev[1], ev[2]
+            gated = len(ev) > 3 and ev[3] == "gated" and w.stype == "thread"
             cl = rd.RawClient(w.srv.port, timeout=WAIT)
             clients[c] = cl
+            if gated:
+                GATE.handed.clear()
             cl.send(rd.connect_msg("P", handshake={"cid": c, "ok": bool(ok)}))
-            m = got_reply(cl.recv_msg())
+            if gated:
+                # the accept loop has dispatched the connection to a worker (Pool.process returned) while the worker that
+                # just went back to the pool is still parked; now let that worker continue
+                if not GATE.handed.wait(WAIT):
+                    stalled[0] = True
+                GATE.release()
+            m = cl.recv_msg()
+            if m == "TIMEOUT" and gated and w.dead_workers() > 0:
+                pass        # not a slow run: the worker the connection was given to has terminated; a genuine observation
+            else:
+                got_reply(m)
             acc = isinstance(m, dict) and m["type"] == protocol.MSG_CONNECTOK
             if acc:
                 accepted.add(c)
@@ -333,8 +428,13 @@ def run_case(world, case):
             c, how = ev[1], ev[2]
             cl = clients[c]
             if how == "close":
+                gated = len(ev) > 3 and ev[3] == "gated" and w.stype == "thread"
+                if gated:
+                    GATE.arm()
                 cl.close()
                 ended_client.add(c)
+                if gated and not GATE.reached.wait(WAIT):
+                    stalled[0] = True
             elif how == "reset":
                 cl.reset()
                 ended_client.add(c)
@@ -371,6 +471,7 @@ def run_case(world, case):
             snapshot("timeout")
         else:
             raise ValueError("unknown event %r" % (ev,))
+    GATE.release()
     idle_guard()
     # probe: every connection the daemon still holds open must still serve, with its own session instance
     probes = {}
@@ -412,6 +513,7 @@ def run_chunk(args):
                 try:
                     obs = run_case(world, case)
                 except Exception as x:       # harness-level failure: rebuild the world and retry
+                    GATE.release()
                     obs = {"error": "%s: %s" % (type(x).__name__, x), "valid": False}
                     with contextlib.suppress(Exception):
                         world.stop()
